@@ -49,9 +49,10 @@ PROP = dict(
     partial=[
         "select_spec_orig_partial: the selection rule for the code as ORIGINALLY written holds only under "
         "seqno < 2^32-1 (select_wrap_witness: negation at 2^32-1, replayed on Go, fixed in the repo)",
-        "WaitReturns (def, not proved): after its result is decided the waiter still needs the pool lock for the "
-        "deferred unsubscribe; that needs fairness of the lock itself. wait_success_spec proves the decision "
-        "(leave ok), no_deadlock that nothing blocks",
+        "liveness is split in two theorems: wait_success_spec (the result becomes ok) and wait_returns (the deferred "
+        "unsubscribe gets the pool lock: weak fairness of Run and of subscribing waiters, strong fairness of the "
+        "waiter's own lock acquisition); no example of a fair infinite execution is constructed (the hypotheses are "
+        "the usual fairness assumptions, satisfiable by round-robin scheduling)",
         "wait_success_spec starts when notifySubscribers/switchTo iterates with the head (or the head is in the "
         "channel); the step before (Run receives the update and takes the read lock while the connection is still "
         "the best one) is covered by no_deadlock + subscribe_atomic, not by a separate leads-to theorem",
